@@ -76,6 +76,13 @@ CLAIMED["C16"] = (
     "DESIGN.md section 3, C16",
 )
 
+CLAIMED["C03"] = (
+    "sibling-table agreement across parser, generator templates, embedded Rego (parsed with OPA's parser) and report builder (syntax + types), control-dependence of conditional report keys, field-use census",
+    "The severity word is followed through the four tables it passes (profile parser -> generator rule heads and defaults -> report[level] rules of the embedded Rego -> report buckets/severity IRI/id prefix) and agreement is required at every hop for all three levels; conforms is computed from the violation bucket only; result/dateCreated are stored under exactly the stated conditions with a zone-preserving layout; the report configuration is read nowhere else. Right level: each clause of the property is an agreement between constants in sibling tables, which no amount of sampling checks for the unsampled level, but which is visible in the source.",
+    "OPA's set-to-array conversion and the contents of each level's result set (C01) are out of scope. " + TRUST,
+    "DESIGN.md section 3, C03",
+)
+
 # properties without a check yet (or declined), with the reason
 NOT_APPLICABLE = {
 }
